@@ -48,6 +48,10 @@ func runC16(r *Run) {
 	// handler fails a batch only because something it called failed (a refused batch returns to the queue and is
 	// retried for ever, blocking everything behind it)
 	r.checkHandlerErrorsPropagated(P)
+	// "none lost, none duplicated ... deferred operations are re-queued": each queued operation of a cut has exactly
+	// one outcome in the handler — included under its own type, deferred (handed back as the very queued operation of
+	// that iteration) or discarded as expired (partition of the batch, shared with C13)
+	r.checkPartition(P)
 	// --- ack.nack
 	if f := r.fn(P, pkgBatch, "Writer.cutAndProcess"); f != nil {
 		ff := r.E.Facts(f, core.Ctx{})
